@@ -71,3 +71,30 @@ Proof.
   - apply Z.quot_le_lower_bound; lia.
   - apply Z.quot_le_upper_bound; lia.
 Qed.
+
+(* enterAltScreen = (one flush when lines are queued on the main screen) then the switch itself *)
+Lemma enter_alt_cases r :
+  r_enter_alt r = r_enter_alt_core r \/
+  (r_alt r = false /\ r_queued r <> [] /\
+   r_enter_alt r = (fst (r_enter_alt_core (fst (r_flush r))), snd (r_flush r) ++ snd (r_enter_alt_core (fst (r_flush r))))).
+Proof.
+  unfold r_enter_alt. destruct (r_alt r) eqn:Ea; [left; reflexivity|]. unfold queue_empty.
+  destruct (r_queued r) eqn:Eq; [left; reflexivity|]. right. cbn [orb].
+  repeat split; [discriminate|]. destruct (r_flush r) as [r1 t1]. cbn [fst snd].
+  destruct (r_enter_alt_core r1) as [r2 t2]. reflexivity.
+Qed.
+
+Lemma enter_alt_no_queue r : r_queued r = [] -> r_enter_alt r = r_enter_alt_core r.
+Proof. intros E. unfold r_enter_alt, queue_empty. rewrite E, orb_true_r. reflexivity. Qed.
+
+(* a line queued on the main screen is written out by enterAltScreen whenever a frame is pending *)
+Lemma enter_alt_writes_queued_lines r :
+  r_alt r = false -> r_buf r <> [] -> r_lastRender r = [] -> r_queued (fst (r_enter_alt r)) = [].
+Proof.
+  intros Ha Hb Hl. unfold r_enter_alt, queue_empty. rewrite Ha. cbn [orb].
+  destruct (r_queued r) as [|q qs] eqn:Eq.
+  - unfold r_enter_alt_core. rewrite Ha. cbn. exact Eq.
+  - unfold r_flush. destruct (r_buf r) as [|b0 bs] eqn:Eb; [congruence|]. rewrite Hl.
+    change (bytes_eqb (b0 :: bs) []) with false. cbv iota. rewrite Ha, Eq. cbn [negb andb fst snd].
+    unfold r_enter_alt_core. cbn. reflexivity.
+Qed.
